@@ -681,3 +681,67 @@ def history_blocks(rng, east, north):
             kwargs["spacing"] = (float(height / rng.uniform(1.2, 5.5)), float(width / rng.uniform(1.2, 5.5)))
     kwargs["center_coordinates"] = bool(rng.random() < 0.5)
     return kwargs
+
+
+# --------------------------------------------------------------------------
+# re-configuration histories (shared by C09 and C10)
+# --------------------------------------------------------------------------
+RECONFIGURE_HOW = ["set_params", "attribute_assignment", "clone_then_set_params"]
+
+
+def pick_changes(rng, params, east, north, kinds, reductions=None):
+    """
+    New values for 1..3 constructor parameters of an existing estimator (``params`` = its get_params()).
+    kinds: subset of uncertainty | spacing | shape_vs_spacing | region | adjust | center_coordinates | drop_coords | reduction.
+    Returns (changes dict, names of the kinds applied).
+    """
+    width = (east.max() - east.min()) or 1.0
+    height = (north.max() - north.min()) or 1.0
+    names = [str(k) for k in rng.choice(kinds, size=int(rng.integers(1, 4)), replace=False)]
+    changes = {}
+    for name in names:
+        if name == "uncertainty":
+            changes["uncertainty"] = not bool(params["uncertainty"])
+        elif name == "spacing":
+            new = (float(height / rng.uniform(1.2, 6.5)), float(width / rng.uniform(1.2, 6.5)))
+            changes["spacing"] = new if rng.random() < 0.6 else float(min(new))
+            changes["shape"] = None
+        elif name == "shape_vs_spacing":
+            shape_now = changes.get("shape", params.get("shape")) if "shape" in changes or "spacing" not in changes else None
+            if shape_now is None:
+                changes["shape"] = (int(rng.integers(1, 7)), int(rng.integers(1, 7)))
+                changes["spacing"] = None
+            else:
+                changes["spacing"] = float(min(width, height) / rng.uniform(1.2, 5.5))
+                changes["shape"] = None
+        elif name == "region":
+            if params.get("region") is None:
+                changes["region"] = [float(east.min() - 0.4 * width), float(east.max() + 0.1 * width),
+                                     float(north.min() + 0.15 * height), float(north.max() + 0.5 * height)]
+            else:
+                changes["region"] = None
+        elif name == "adjust":
+            changes["adjust"] = "region" if params.get("adjust") == "spacing" else "spacing"
+        elif name == "center_coordinates":
+            changes["center_coordinates"] = not bool(params["center_coordinates"])
+        elif name == "drop_coords":
+            changes["drop_coords"] = not bool(params["drop_coords"])
+        elif name == "reduction":
+            others = [r for r in reductions if r is not params["reduction"]]
+            changes["reduction"] = others[int(rng.integers(0, len(others)))]
+    return changes, names
+
+
+def reconfigure(rng, est, changes):
+    """Apply the changes to the SAME object (set_params / plain attribute assignment) or to a clone of it. Returns (estimator, how)."""
+    import sklearn.base
+
+    how = RECONFIGURE_HOW[int(rng.integers(0, len(RECONFIGURE_HOW)))]
+    if how == "set_params":
+        est.set_params(**changes)
+    elif how == "attribute_assignment":
+        for key, value in changes.items():
+            setattr(est, key, value)
+    else:
+        est = sklearn.base.clone(est).set_params(**changes)
+    return est, how
